@@ -30,6 +30,7 @@ EXHAUSTIVE = True
 
 POSES = ['SO2', 'SE2', 'SO3', 'SE3']
 CLS = POSES + ['Quaternion', 'UnitQuaternion', 'Twist2', 'Twist3']
+TW = ['Twist2', 'Twist3']
 OPS_FOR = {
     'SO2': ['mul', 'truediv', 'add', 'sub', 'eq', 'ne'], 'SE2': ['mul', 'truediv', 'add', 'sub', 'eq', 'ne'],
     'SO3': ['mul', 'truediv', 'add', 'sub', 'eq', 'ne'], 'SE3': ['mul', 'truediv', 'add', 'sub', 'eq', 'ne'],
@@ -238,6 +239,15 @@ def ACC():
         'v': (['Quaternion', 'UnitQuaternion'], lambda x: x.v),
         'vec': (['Quaternion', 'UnitQuaternion'], lambda x: x.vec),
         'unit': (['Quaternion', 'UnitQuaternion'], lambda x: x.unit()),
+        # twists: every per-value member documented on the Twist classes
+        'tw.S': (TW, lambda x: x.S), 'tw.v': (TW, lambda x: x.v), 'tw.w': (TW, lambda x: x.w), 'tw.unit': (TW, lambda x: x.unit),
+        'tw.isunit': (TW, lambda x: x.isunit), 'tw.isprismatic': (TW, lambda x: x.isprismatic), 'tw.isrevolute': (TW, lambda x: x.isrevolute),
+        'tw.se': (TW, lambda x: x.se3() if type(x).__name__ == 'Twist3' else x.se2()),
+        'tw.SE': (TW, lambda x: x.SE3() if type(x).__name__ == 'Twist3' else x.SE2()),
+        'tw.exp': (TW, lambda x: x.exp()), 'tw.exp_theta': (TW, lambda x: x.exp(0.7)), 'tw.exp_deg': (TW, lambda x: x.exp(40.0, 'deg')),
+        'tw.pitch': (['Twist3'], lambda x: x.pitch()), 'tw.pole': (['Twist3'], lambda x: x.pole()), 'tw.theta': (['Twist3'], lambda x: x.theta()),
+        'tw.line': (['Twist3'], lambda x: x.line()), 'tw.Ad': (['Twist3'], lambda x: x.Ad()), 'tw.ad': (['Twist3'], lambda x: x.ad()),
+        'tw.prod': (TW, None),      # placeholder: sequence product is a reduction, judged by C02/C18 (never called here)
     }
 
 
@@ -315,7 +325,35 @@ def run_interp(ctx, p):
     ctx.nontrivial('interp', c, len(svec))
 
 
-RUNNERS = {'binop': run_binop, 'pow': run_pow, 'point': run_point, 'acc': run_acc, 'interp': run_interp}
+def run_scalar(ctx, p):
+    """object holding M values combined with a real scalar (either side of *, right of /): M results equal to the single-valued operation"""
+    c, A, k, op = p['cls'], p['A'], p['k'], p['op']
+    m = len(A)
+    sig = dict(api='%s.scalar' % c, op=op, lens='1' if m == 1 else 'M', ktype=type(k).__name__)
+    f = {'mul': lambda x: x * k, 'rmul': lambda x: k * x, 'truediv': lambda x: x / k}[op]
+    try:
+        singles = [f(mk(c, [a])) for a in A]
+    except Exception as e:
+        ctx.ood('binop')
+        ctx.cell('scalar_single_raises', c, op, type(e).__name__)
+        return
+    try:
+        res = f(mk(c, A))
+    except Exception as e:
+        ctx.bad('binop', dict(sig, kind='raised_on_sequence', exc=type(e).__name__), '%s (%d values) %s %r raised %r; the single-valued operation works' % (c, m, op, k, e))
+        return
+    if m == 1:
+        ok = same(res, singles[0]) or split_any_axis(res, 1, singles) or (isinstance(res, np.ndarray) and close(res, singles[0]))
+    else:
+        ok = split_any_axis(res, m, singles)
+    ctx.judge('binop', ok, dict(sig, kind='element_mismatch'),
+              lambda: '%s (%d values) %s %r gives %s; per-element results are %s' % (c, m, op, k, core.short(dat(res), 400), core.short([dat(x) for x in singles], 400)))
+    ctx.cell('binop', c, 'scalar_' + op, m, type(k).__name__)
+    if m > 1:
+        ctx.nontrivial('scalar', c, op, m, k)
+
+
+RUNNERS = {'scalar': run_scalar, 'binop': run_binop, 'pow': run_pow, 'point': run_point, 'acc': run_acc, 'interp': run_interp}
 
 
 def REACH():
@@ -374,8 +412,19 @@ def run(ctx):
                 if c in POSES + ['UnitQuaternion']:
                     d = 2 if c in ('SO2', 'SE2') else 3
                     drive(RUNNERS, ctx, 'point', dict(cls=c, A=elements(rng, c, m), pt=gen.vec(rng, d, 1e-2, 1e2)))
+    for c in CLS:
+        for op in ('mul', 'rmul', 'truediv'):
+            for m in range(1, 6):
+                i += 1
+                if not ctx.mine(i):
+                    continue
+                for _ in range(reps):
+                    k = [2, -1, 3, 0.5, -2.5, float(rng.uniform(-4, 4))][rng.integers(6)]
+                    drive(RUNNERS, ctx, 'scalar', dict(cls=c, op=op, A=elements(rng, c, m), k=k))
     acc = ACC()
-    for name, (classes, _) in acc.items():
+    for name, (classes, fn) in acc.items():
+        if fn is None:
+            continue
         for c in classes:
             for m in range(1, 6):
                 i += 1
